@@ -81,30 +81,52 @@ def r2_op_table(rep, ctx):
 
 
 def r3_merge_and_removal(rep, ctx):
+    """On terms: with MQ = self._MatchQuantities(copy of the left map, copy of the right map, value1, value2),
+    MAP1 = MQ[0], MAP2 = MQ[1]: the exponents of MAP2's entries are merged into MAP1 by operation_exp(left, right),
+    zero exponents (own, or per-unit total over MAP1) are deleted from MAP1 on every path to CreateDerived(MAP1),
+    and the result is (that quantity, operation(MQ[2], MQ[3]))."""
+    from ..accum import accumulations, entry_path
+
     m = ctx.model
     fn = m.method("UnitDatabase", "_DoOperationResultingInNewQuantity")
     cfg = CFG(fn.node)
-    res = Resolver(m, fn, flow=False)
+    res = Resolver(m, fn)
+    P = {p_: ("param", i_, p_) for i_, p_ in enumerate(fn.params)}
+    mq = [c for c in own_nodes(fn.node) if isinstance(c, ast.Call) and res.term(c.func) == ("field", "_MatchQuantities")]
+    if len(mq) != 1:
+        raise AnalysisError("new-quantity routine: expected one call of _MatchQuantities, found %d" % len(mq))
+    MQ = res.term(mq[0])
+
+    def copy_of(q):
+        return ("call", ("attr", P[q], "GetCategoryToUnitAndExpsCopy"), (), ())
+
+    ok = MQ[0] == "call" and list(MQ[2]) == [copy_of("quantity1"), copy_of("quantity2"), P["value1"], P["value2"]]
+    rep.check(ok, "C04.R3", "operands-in-order", "map 1 is a copy of the left operand's map and map 2 of the right one's", "the working maps are matched as %s" % show(MQ, 200), node=mq[0], fn=fn)
+    MAP1, MAP2, V1, V2 = (("sub", MQ, ("const", i_)) for i_ in range(4))
     # exponent merges: operation_exp(<left exponent or 0>, <right exponent>)
-    calls = [c for c in own_nodes(fn.node) if isinstance(c, ast.Call) and isinstance(c.func, ast.Name) and c.func.id == "operation_exp"]
-    rep.floor("C04.R3", "exponent merges", len(calls), 2)
-    rres = Resolver(m, fn)
-    def from_map(t, which):
-        # an exponent taken out of map 1 / map 2 (position 1 of a [unit, exp] entry)
-        return all(any(s == ("param", which, fn.params[which]) for s in walk(a)) and a[0] == "sub" and a[2] == ("const", 1) for a in alternatives(t))
+    calls = [c for c in own_nodes(fn.node) if isinstance(c, ast.Call) and res.term(c.func) == P["operation_exp"]]
+    rep.floor("C04.R3", "exponent merges", len(calls), 1)
     zero_seen = False
-    for c in calls:
-        a0, a1 = (rres.term(x) for x in c.args[:2]) if len(c.args) == 2 else (None, None)
-        left_ok = a0 is not None and (a0 == ("const", 0) or from_map(a0, 1) or all(x == ("const", 0) or (x[0] == "sub" and x[2] == ("const", 1)) for x in alternatives(a0)))
-        right_ok = a1 is not None and all(x[0] == "sub" and x[2] == ("const", 1) for x in alternatives(a1)) and a0 != a1
+    for i_, c in enumerate(sorted(calls, key=lambda c: (c.lineno, c.col_offset))):
+        a0, a1 = (res.term(x) for x in c.args[:2]) if len(c.args) == 2 else (None, None)
+
+        def left_exp(t):
+            # MAP1[<category of a MAP2 entry>][1]
+            if not (t[0] == "sub" and t[2] == ("const", 1)):
+                return False
+            e = t[1]
+            if e[0] == "sub" and e[1] == MAP1:
+                return entry_path(e[2]) == (MAP2, (0,))
+            # MAP1.get(<category>)[1] (the entry is known to exist on this path)
+            return e[0] == "call" and e[1] == ("attr", MAP1, "get") and len(e[2]) >= 1 and entry_path(e[2][0]) == (MAP2, (0,))
+
+        left_ok = a0 is not None and all(x == ("const", 0) or left_exp(x) for x in alternatives(a0))
+        right_ok = a1 is not None and all(entry_path(x) == (MAP2, (1, 1)) for x in alternatives(a1))
         if a0 is not None and any(x == ("const", 0) for x in alternatives(a0)):
             zero_seen = True
-        names = [ast.unparse(x) for x in c.args]
-        order_ok = names[0] in ("exp1", "0") and names[1] == "exp2" if all(n_ in ("exp1", "exp2", "0") for n_ in names) else (left_ok and right_ok)
-        rep.check(bool(order_ok), "C04.R3", "merge:%d" % calls.index(c), "exponents are combined as operation_exp(left, right)", "exponents are combined as %s" % ast.unparse(c), node=c, fn=fn)
+        rep.check(bool(left_ok and right_ok), "C04.R3", "merge:%d" % i_, "exponents are combined as operation_exp(left, right)", "exponents are combined as %s" % ast.unparse(c), node=c, fn=fn)
     rep.check(zero_seen, "C04.R3", "merge:missing-category-has-exponent-0", "a category the left operand lacks enters with exponent 0", "no merge combines exponent 0 for a category missing on the left", fn=fn)
-    # the unit stored for a merged-in category is the right operand's unit
-    # removal loop
+    # removal of cancelled categories
     dels = [d for d in own_nodes(fn.node) if isinstance(d, ast.Delete)]
     if len(dels) != 1:
         rep.bad("C04.R3", "removal:loop", "the removal of zero-exponent categories was not found (%d deletions): a / a keeps 'length ** 0' factors" % len(dels), fn=fn)
@@ -113,22 +135,39 @@ def r3_merge_and_removal(rep, ctx):
     par = d._parent
     # the condition under which a category is deleted: the enclosing `if`, or - when the keys are
     # collected first - the filter of the comprehension that the deletion loop iterates
-    cond = None
+    cond, cond_env = None, None
     if isinstance(par, ast.If):
         cond = par.test
     elif isinstance(par, ast.For) and isinstance(par.iter, ast.Name):
-        for st in own_statements(fn.node):
-            if isinstance(st, ast.Assign) and isinstance(st.targets[0], ast.Name) and st.targets[0].id == par.iter.id and isinstance(st.value, (ast.ListComp, ast.SetComp, ast.GeneratorExp)) \
+        for st, _t in res.origins(par.iter):
+            if st is not None and isinstance(st, (ast.Assign, ast.AnnAssign)) and isinstance(st.value, (ast.ListComp, ast.SetComp, ast.GeneratorExp)) \
                     and len(st.value.generators) == 1 and len(st.value.generators[0].ifs) == 1:
                 cond = st.value.generators[0].ifs[0]
+                cond_env = st.value
     if cond is None:
         raise AnalysisError("new-quantity routine: the condition under which a category is removed was not recognised")
     tests = cond.values if isinstance(cond, ast.BoolOp) and isinstance(cond.op, ast.Or) else [cond]
+
+    def term_in_cond(x):
+        if cond_env is None:
+            return res.term(x)
+        # inside the comprehension: bind its variables
+        ce = {}
+        g = cond_env.generators[0]
+        res._bind_comp(g.target, ("elem", res.term(g.iter)), ce)
+        return res.term(x, _compenv=ce)
+
     def zero_cmp(x):
-        return isinstance(x, ast.Compare) and len(x.ops) == 1 and isinstance(x.ops[0], ast.Eq) and (
-            (isinstance(x.comparators[0], ast.Constant) and x.comparators[0].value == 0 and x.left) or (isinstance(x.left, ast.Constant) and x.left.value == 0 and x.comparators[0]))
-    own_zero = any(zero_cmp(x) and isinstance(zero_cmp(x), ast.Name) for x in tests)
-    total_zero = any(zero_cmp(x) and isinstance(zero_cmp(x), ast.Subscript) for x in tests)
+        if isinstance(x, ast.Compare) and len(x.ops) == 1 and isinstance(x.ops[0], ast.Eq):
+            for l_, r_ in ((x.left, x.comparators[0]), (x.comparators[0], x.left)):
+                if isinstance(r_, ast.Constant) and r_.value == 0 and not isinstance(r_.value, bool):
+                    return term_in_cond(l_)
+        return None
+
+    accs = [a_ for a_ in accumulations(m, fn, res) if entry_path(a_["added"]) == (MAP1, (1, 1)) and entry_path(a_["key"]) == (MAP1, (1, 0)) and not a_["conditional"]]
+    zs = [z for z in (zero_cmp(x) for x in tests) if z is not None]
+    own_zero = any(entry_path(z) == (MAP1, (1, 1)) for z in zs)
+    total_zero = any(z[0] == "sub" and entry_path(z[2]) == (MAP1, (1, 0)) for z in zs)
     rep.check(own_zero and total_zero, "C04.R3", "removal:test", "a category is dropped when its own exponent is 0 or the total exponent of its unit is 0",
               "the removal test `%s` does not cover %s" % (ast.unparse(cond), "'own exponent is 0'" if not own_zero else "'per-unit total is 0'"), node=d, fn=fn)
     create = [c for c in own_nodes(fn.node) if isinstance(c, ast.Call) and isinstance(c.func, ast.Attribute) and c.func.attr in ("CreateDerived", "_CreateDerived")]
@@ -137,23 +176,18 @@ def r3_merge_and_removal(rep, ctx):
     loop = d
     while loop is not None and not isinstance(loop, ast.For):
         loop = getattr(loop, "_parent", None)
-    L = cfg.node_of(loop)
     dom = cfg.dominated_by_node(cfg.node_of(create[0]), lambda k, a: a is loop)
     rep.check(dom, "C04.R3", "removal:dominates-creation", "every path to CreateDerived passes the removal loop", "a path reaches CreateDerived without passing the removal loop", node=create[0], fn=fn)
-    arg = res.term(create[0].args[0]) if create[0].args else None
-    rep.check(ast.unparse(create[0].args[0]) == ast.unparse(d.targets[0].value) if create[0].args else False, "C04.R3", "removal:same-map", "the cleaned map is the one the result is created from", "CreateDerived is given another map than the one that was cleaned", node=create[0], fn=fn)
-    # per-unit totals accumulate the exponent
-    acc = [st for st in own_statements(fn.node) if isinstance(st, ast.Assign) and isinstance(st.targets[0], ast.Subscript) and "only_units_expoents" in ast.unparse(st.targets[0])]
-    ok = len(acc) == 1 and ast.unparse(acc[0].value).replace(" ", "") in ("existing+exp", "exp+existing", "only_units_expoents.get(unit,0)+exp", "exp+only_units_expoents.get(unit,0)")
-    rep.check(ok, "C04.R3", "removal:per-unit-total", "the per-unit total adds up the exponents of all categories using that unit", "the per-unit total is %s" % [ast.unparse(a.value) for a in acc], fn=fn)
+    same = bool(create[0].args) and res.term(create[0].args[0]) == MAP1 and isinstance(d.targets[0], ast.Subscript) and res.term(d.targets[0].value) == MAP1
+    rep.check(same, "C04.R3", "removal:same-map", "the cleaned map is the one the result is created from", "CreateDerived is given another map than the one that was cleaned", node=create[0], fn=fn)
+    # per-unit totals accumulate the exponent of every entry
+    rep.check(len(accs) == 1, "C04.R3", "removal:per-unit-total", "the per-unit total adds up the exponents of all categories using that unit",
+              "the per-unit total is not `total[unit] = total.get(unit, 0) + exponent` over every entry of the merged map", fn=fn)
     # value operation
-    rets = [r for r in own_nodes(fn.node) if isinstance(r, ast.Return) and isinstance(r.value, ast.Tuple)]
-    ok = len(rets) == 1 and ast.unparse(rets[0].value.elts[1]) == "operation(value1, value2)" and ast.unparse(rets[0].value.elts[0]) == ast.unparse(create[0]._parent.targets[0]) if isinstance(create[0]._parent, ast.Assign) else False
-    rep.check(bool(ok), "C04.R3", "result", "the result is (created quantity, operation(value1, value2))", "the result is %s" % (ast.unparse(rets[0].value) if rets else None), fn=fn)
-    # both maps are matched copies of the operands' maps, left and right in order
-    copies = [st for st in own_statements(fn.node) if isinstance(st, ast.Assign) and isinstance(st.value, ast.Call) and isinstance(st.value.func, ast.Attribute) and st.value.func.attr == "GetCategoryToUnitAndExpsCopy"]
-    ok = [(ast.unparse(st.targets[0]), ast.unparse(st.value.func.value)) for st in copies] == [("category_to_unit_and_exp1", "quantity1"), ("category_to_unit_and_exp2", "quantity2")]
-    rep.check(ok, "C04.R3", "operands-in-order", "map 1 is a copy of the left operand's map and map 2 of the right one's", "the working maps are %s" % [(ast.unparse(st.targets[0]), ast.unparse(st.value.func.value)) for st in copies], fn=fn)
+    rets = [r for r in own_nodes(fn.node) if isinstance(r, ast.Return) and r.value is not None]
+    want = ("tuple", (res.term(create[0]), ("call", P["operation"], (V1, V2), ())))
+    ok = len(rets) == 1 and res.term(rets[0].value) == want
+    rep.check(bool(ok), "C04.R3", "result", "the result is (created quantity, operation(value1, value2))", "the result is %s" % (show(res.term(rets[0].value), 200) if rets else None), fn=fn)
 
 
 def r4_pow(rep, ctx):
